@@ -408,6 +408,69 @@ func (p *Prog) ConstGlobal(g *ssa.Global) ssa.Value {
 						pure = false
 					}
 				}
+			case *ssa.Slice:
+				// a slice literal of constants or pure library calls that is only read afterwards
+				// (`var patterns = []*regexp.Regexp{regexp.MustCompile("..."), ...}`)
+				if arr, isAlloc := v.X.(*ssa.Alloc); isAlloc && v.Low == nil && v.High == nil {
+					pure = true
+					for _, ref := range *arr.Referrers() {
+						switch y := ref.(type) {
+						case *ssa.IndexAddr:
+							for _, r2 := range *y.Referrers() {
+								st, isSt := r2.(*ssa.Store)
+								if !isSt || st.Addr != ssa.Value(y) {
+									pure = false
+									continue
+								}
+								switch e := st.Val.(type) {
+								case *ssa.Const:
+								case *ssa.Call:
+									if e.Call.StaticCallee() == nil || p.InRepo(e.Call.StaticCallee()) {
+										pure = false
+									}
+									for _, a := range e.Call.Args {
+										if _, isK := a.(*ssa.Const); !isK {
+											pure = false
+										}
+									}
+								default:
+									pure = false
+								}
+							}
+						case *ssa.Slice:
+							if y != v {
+								pure = false
+							}
+						case *ssa.DebugRef:
+						default:
+							pure = false
+						}
+					}
+					for _, u := range us {
+						ld, isLoad := u.(*ssa.UnOp)
+						if !isLoad {
+							continue
+						}
+						for _, ref := range *ld.Referrers() {
+							switch y := ref.(type) {
+							case *ssa.Range, *ssa.DebugRef:
+							case *ssa.Index:
+							case *ssa.IndexAddr:
+								for _, r2 := range *y.Referrers() {
+									if l2, isL := r2.(*ssa.UnOp); !isL || l2.Op != token.MUL {
+										pure = false
+									}
+								}
+							case *ssa.Call:
+								if b, isB := y.Call.Value.(*ssa.Builtin); !isB || b.Name() != "len" {
+									pure = false
+								}
+							default:
+								pure = false
+							}
+						}
+					}
+				}
 			case *ssa.MakeMap:
 				// a map literal of constants that is only read afterwards (`var names = map[Kind]string{...}`)
 				pure = true
